@@ -26,7 +26,7 @@ INTS = ['int1', 'int2', 'int3', 'außen4']      # (the last: a name on which low
 
 
 def floors(tier):
-    return {'plans_checked': 1500, 'len:positions': 14, 'len:spellings': 3, 'len:catalog_forms': 5, 'metamorphic_pairs': 500, 'model_queries': 200}
+    return {'plans_checked': 1500, 'len:positions': 15, 'len:spellings': 3, 'len:catalog_forms': 5, 'metamorphic_pairs': 500, 'model_queries': 200}
 
 
 def ceilings(tier):
@@ -79,7 +79,7 @@ def build(r, style, kind=None):
     kind = kind or r.choice(['from', 'join', 'join3', 'where-sub', 'target-sub', 'case-sub', 'func-sub', 'cte', 'insert-select', 'update-from',
                              'delete-sub', 'model', 'model-version', 'model-2tables', 'union', 'where-sub-join', 'target-sub-join',
                              'model-twice', 'model-twice', 'qualified-cols', 'delete-qualified', 'update-qualified', 'model-select',
-                             'model-sub-twice', 'cte-named-like-foreign-table', 'table-named-like-model', 'schema-named-like-integration'])
+                             'model-sub-twice', 'cte-named-like-foreign-table', 'table-named-like-model', 'schema-named-like-integration', 'ts-model-join'])
     c.positions.add(kind)
     if kind == 'table-named-like-model':
         # a data table whose name is also the name of a model in the catalog (of the default project, or of another project)
@@ -118,7 +118,10 @@ def build(r, style, kind=None):
     if kind in ('where-sub-join', 'target-sub-join'):
         # nested select whose FROM is itself a join that mixes the outer query's integration with another one
         outer_home = c.homes[t1.split('.')[1]]
-        other = r.choice([i for i in INTS if i != outer_home])
+        # (the partner may also be a view of a project: that is no table of any integration either)
+        other = r.choice([i for i in INTS if i != outer_home] + ['proj2'])
+        if other == 'proj2':
+            c.uses_project = True
         inner = (f'SELECT s1.c FROM {c.tbl(outer_home)} AS s1 JOIN {c.tbl(other)} AS s2 ON s1.k = s2.k WHERE s2.x > 0')
         if kind == 'where-sub-join':
             return f'SELECT a1.c FROM {t1} AS a1 WHERE a1.k IN ({inner})', c
@@ -165,6 +168,16 @@ def build(r, style, kind=None):
     c.models[mname] = (proj, ver)
     mref = f'{spell(proj, style)}.{mname}' + (f'.{ver}' if ver else '')
     frm = f'{t1} AS a1'
+    if kind == 'ts-model-join':
+        # a time-series model: conditions on its partition column written column-first / value-first, qualified by the model's alias
+        # or by the model's full name - none of that may reach the data integration
+        c.ts_model = True
+        full = f'{spell(proj, style)}.{mname}'
+        cond = r.choice(["m.g = 'x'", "'x' = m.g", f"'x' = {full}.g", f"{full}.g = 'x'", "a1.g = 'x'", "'x' = a1.g"])
+        tcond = r.choice(['a1.ts > LATEST', 'a1.ts > 5', '5 < a1.ts', 'm.ts > 5', '5 < m.ts'])
+        if full in cond:
+            return f'SELECT * FROM {t1} JOIN {mref} WHERE {t1}.ts > 5 AND {cond}', c
+        return f'SELECT * FROM {frm} JOIN {mref} AS m WHERE {tcond} AND {cond}', c
     if kind == 'model-select':
         c.homes.clear()
         return f'SELECT * FROM {mref} WHERE x = 1', c
@@ -186,6 +199,9 @@ def build(r, style, kind=None):
 
 def model_metadata(case, variant=0):
     out = [{'name': m, 'integration_name': p, 'timeseries': False, 'to_predict': ['y']} for m, (p, v) in case.models.items()]
+    if getattr(case, 'ts_model', False):
+        for rec in out:
+            rec.update({'timeseries': True, 'window': 2, 'order_by_column': 'ts', 'group_by_columns': ['g']})
     if variant or getattr(case, 'needs_zz', False):
         # a catalog with further models around the one the query uses; a model of the default project may leave its project out
         for rec in out:
